@@ -436,12 +436,27 @@ theorem put_cases (g : Gate) (k : Kind) (idx : Nat) (c : Ctx) :
       · cases after <;> simp
       · simp [hd]
 
+theorem put_out (g : Gate) (k : Kind) (idx : Nat) (c : Ctx) : (g.put k idx c).out = g.out := by
+  unfold Gate.put
+  cases hd : g.dead with
+  | true => simp
+  | false =>
+    simp only [Bool.false_eq_true, if_false]
+    cases ha : g.armed with
+    | none => simp
+    | some a =>
+      obtain ⟨m, after⟩ := a
+      simp only
+      split
+      · cases after <;> simp
+      · simp
+
 theorem has_of_put (p : Persist) (k : Kind) (idx : Nat) (c : Ctx) (hidx : idx = 1 ∨ idx = 2) :
     (p.put k idx c).has k c = true := by
   unfold Persist.has
   rcases hidx with rfl | rfl <;> simp [put_same]
 
-theorem Inv.cast {g : Gate} (h : Inv g) (k : Kind) (r i hh : Nat) : Inv (g.cast k r i hh).1 := by
+theorem Inv.cast {g : Gate} (h : Inv g) (k : Kind) (r i hh prio w : Nat) : Inv (g.cast k r i hh prio w).1 := by
   unfold Gate.cast
   split
   · exact h
